@@ -209,17 +209,39 @@ def check_C08(tier, seed, t0):
     return finish('C08', tier, seed, 'exploration', parts, VEC_RULES['C08'], ASSUME_COMMON, t0)
 
 
+C10_GRID_RULE = ('exhaustive: size 1..6 x position 0..size x source index 0..size-1 x count 0..4 x spare capacity {0,1,count,20} x {push_back, insert, '
+                 'insert-n, emplace, emplace_back, resize(n,v), assign(n,v), append(n,v)} with v = v[i] by reference, plus emplace/emplace_back constructed '
+                 'from &v[i] x {vector, vector<re,u8>, SmallVector<7>, SmallVector<4> inline and heap, FixedCapacityVector<12>} x {int, TC7, TR, NTR, '
+                 'pointer-constructible TR/NTR}; oracle: copy v[i] first then call on std::vector; non-trivial = source at/after the position or the call '
+                 'reallocates; distinct = distinct grid point')
+
+
 def check_C10(tier, seed, t0):
     cases, maxlen = budget(tier, (30000, 50), (300000, 60))
     names = C.vec_subset(lambda n: '_mo_' not in n and not n.endswith('_mo'))
-    parts = [interp_part('C10', 'vector_histories', vec_jobs(names, cases, maxlen), seed, VEC_RULES['C10'], True, crash_class_codes=list(range(36, 44)))]
-    return finish('C10', tier, seed, 'exploration', parts, VEC_RULES['C10'], ASSUME_COMMON, t0)
+    parts = [enum_part('C10', 'exhaustive_grid', [enum_unit('exh_c10', 'targets/exh_c10.cpp')], seed, tier, C10_GRID_RULE),
+             interp_part('C10', 'vector_histories', vec_jobs(names, cases, maxlen), seed, VEC_RULES['C10'], True, crash_class_codes=list(range(36, 44)))]
+    parts[1].coverage['exhaustive'] = False
+    return finish('C10', tier, seed, 'exploration', parts, C10_GRID_RULE + ' || histories: ' + VEC_RULES['C10'], ASSUME_COMMON, t0)
+
+
+C13_GRID_RULE = ('every ordered pair of 9 vector flavours (vector<amc,u32>, vector<amc,u8>, vector<std,u16>, SmallVector<3,amc,u32>, SmallVector<6,amc,u16>, '
+                 'SmallVector<4,std,u32>, SmallVector<3,amc,u8>, FixedCapacityVector<5>, FixedCapacityVector<10>) x element {int, TR, NTR} x operand recipes {fill, '
+                 'reserve+fill, fill+pop (heap with spare), fill+clear (heap emptied)} x sizes {0..7, 9..12, 200, 255, 256, 300}; oracle: exchanged exactly or throws '
+                 'with both unchanged; must not throw when each can hold the other; ledgers balanced; follow-up ops and destruction clean; std::terminate = failure; '
+                 'non-trivial = both non-empty and one heap-backed or exactly-full inline; distinct = distinct grid point')
+
+
+def c13_units():
+    return [enum_unit('exh_c13_%s' % n, 'targets/exh_c13.cpp', defines={'VF_CAT': str(i), 'VF_TNAME': '"exh_c13_%s"' % n}) for i, n in enumerate(('int', 'tr', 'ntr'))]
 
 
 def check_C13(tier, seed, t0):
     cases, maxlen = budget(tier, (30000, 50), (300000, 60))
-    parts = [interp_part('C13', 'vector_histories_same_type', vec_jobs([n for n, _ in C.VEC_CONFIGS], cases, maxlen), seed, VEC_RULES['C13'], True, crash_class_codes=[26])]
-    return finish('C13', tier, seed, 'exploration', parts, VEC_RULES['C13'], ASSUME_COMMON, t0)
+    parts = [enum_part('C13', 'exhaustive_pairs', c13_units(), seed, tier, C13_GRID_RULE),
+             interp_part('C13', 'vector_histories_same_type', vec_jobs([n for n, _ in C.VEC_CONFIGS], cases, maxlen), seed, VEC_RULES['C13'], True, crash_class_codes=[26])]
+    parts[1].coverage['exhaustive'] = False
+    return finish('C13', tier, seed, 'exploration', parts, C13_GRID_RULE + ' || histories: ' + VEC_RULES['C13'], ASSUME_COMMON, t0)
 
 
 def check_C14(tier, seed, t0):
@@ -476,7 +498,7 @@ def all_units():
         us += [vec_unit(n, s) for n in C.VEC_MULTISTD]
     us += [fs_unit(n) for n, _ in C.FS_CONFIGS]
     us += [fault_unit(n) for n, _ in FAULT_CONFIGS]
-    us += c15_units() + [race_unit()]
+    us += c15_units() + [race_unit()] + c13_units() + [enum_unit('exh_c10', 'targets/exh_c10.cpp')]
     from . import c16
     us += [c16.unit(cfg, b) for cfg in c16.VEC + c16.FS + c16.SS for b in c16.QUICK_BUILDS if not (cfg in c16.SS and b[0] in ('11', '14'))]
     us += [enum_unit('exh_c12', 'targets/exh_c12.cpp'), enum_unit('growth_c18', 'targets/growth_c18.cpp', kind='plain'),
